@@ -85,6 +85,7 @@ COVER = [
     ({"RULE-ENTITY-TAG"}, {"QRULE-GROUP"}),
     ({"BOUND-SAMESRC"}, {"GEN-BLOCKS", "GEN-DEFS", "GEN-EXPR"}),
     ({"RULE-COHERENCE"}, {"GEN-KERNEL"}),
+    ({"RULE-SCOPED-NAMES"}, {"GEN-KERNEL"}),
     ({"PERM-FLAG-IMPL"}, {"GEN-INTEGRAL-DRIVER"}),
     ({"EXPR-COEF-POS"}, {"GEN-EXPRESSION-IR", "ANALYZE-OBJECTS"}),
     ({"CONJ-LAW"}, {"FACT-DRIVER"}),
@@ -144,6 +145,7 @@ DEMOTE = {
     "TYPE-ORDER": ({"GEN-FORM"}, lambda key: key.endswith(":type-order") or key.endswith(":type-keys")),
     "BOUND-SAMESRC": ({"GEN-BLOCKS", "GEN-DEFS", "GEN-EXPR"}, lambda key: True),
     "RULE-COHERENCE": ({"GEN-KERNEL"}, lambda key: True),
+    "RULE-SCOPED-NAMES": ({"GEN-KERNEL"}, lambda key: key.endswith(":fw-cache-key")),
     "PERM-FLAG-IMPL": ({"GEN-INTEGRAL-DRIVER"}, lambda key: True),
     "EXPR-COEF-POS": ({"GEN-EXPRESSION-IR", "ANALYZE-OBJECTS"}, lambda key: True),
     "EXPR-LAYOUT": ({"GEN-EXPR", "GEN-EXPRESSION-IR"}, lambda key: True),
